@@ -475,13 +475,16 @@ fn translate_item(src: &mut Sources, reg: &mut Registry, module: &str, mcfg: &It
             }
             let (sig, body, text, span) = find_fn(file, imp.as_deref(), &name)?;
             set_meta(meta, span, &text);
-            let lean_name = match &imp {
-                Some(t) => format!("{}.{}", t, name),
-                None => name.clone(),
+            // `"as"`: another Lean name for the definition (two functions of the same Rust name in one module)
+            let lean_name = match (str_of(item, "as"), &imp) {
+                (Some(a), _) => a.to_string(),
+                (None, Some(t)) => format!("{}.{}", t, name),
+                (None, None) => name.clone(),
             };
-            let key = match &imp {
-                Some(t) => format!("{}::{}", t, name),
-                None => name.clone(),
+            let key = match (str_of(item, "as"), &imp) {
+                (Some(a), _) => a.to_string(),
+                (None, Some(t)) => format!("{}::{}", t, name),
+                (None, None) => name.clone(),
             };
             let doc = format!("{} fn `{}`", where_(meta.start, meta.end), key);
             let out = trans::translate_fn(&mut cx, &lean_name, &doc, sig, body)?;
@@ -641,9 +644,10 @@ fn main() {
         let mut deps: Vec<String> = vec![];
         for item in m.get("items").and_then(|v| v.as_array()).cloned().unwrap_or_default() {
             let name = str_of(&item, "name").unwrap_or("?").to_string();
-            let shown = match str_of(&item, "impl") {
-                Some(t) => format!("{}::{}", t, name),
-                None => name.clone(),
+            let shown = match (str_of(&item, "as"), str_of(&item, "impl")) {
+                (Some(a), _) => a.to_string(),
+                (None, Some(t)) => format!("{}::{}", t, name),
+                (None, None) => name.clone(),
             };
             let mut meta = Meta::default();
             let res = translate_item(&mut src, &mut reg, &module, &mcfg, &item, &mut meta);
